@@ -118,6 +118,8 @@ where
                                 }
                             } else if char == "%" {
                                 // self.select_other_charset(yield_!(None));
+                                // Not implemented; the argument still belongs to the sequence.
+                                co.yield_(None);
                             } else if "()".contains(&char) {
                                 let _code = co.yield_(None);
                                 if parser_state_cloned.lock().unwrap().use_utf8 {
@@ -243,6 +245,8 @@ where
                                 }
                             } else if char == "%" {
                                 // self.select_other_charset(yield_!(None));
+                                // Not implemented; the argument still belongs to the sequence.
+                                co.yield_(None);
                             } else if "()".contains(&char) {
                                 let _code = co.yield_(None);
                                 if parser_state_cloned.lock().unwrap().use_utf8 {
